@@ -7,8 +7,11 @@ arrays / JSON-like spec dicts (see gen.py), never pyPRISM objects.
 import functools
 import itertools
 import math
+import os
 
 import numpy as np
+
+DATA_DIR = os.path.join(os.path.realpath(os.environ.get('PVMON_REPO', '/repo')), 'data')
 
 CONTACT_TOL = 1e-6      # the tolerance System.check uses to call sigma "on the grid"
 
@@ -144,6 +147,9 @@ def u_ref(spec, r, sig):
         if t == 'WCA':
             rc = s * 2 ** (1.0 / 6.0)
             return np.where(r > rc, 0.0, _lj(r, spec['eps'], s) - _lj(rc, spec['eps'], s))
+        if t == 'SW':
+            # the user-defined square well of tutorial NB9: strict inequalities, as written there
+            return np.where(r < s, hv, np.where(r < s + spec['width'], -float(spec['depth']), 0.0))
     raise KeyError(t)
 
 
@@ -156,6 +162,8 @@ def special_points(spec, sig):
         pts.append(spec['rcut'])
     if spec['t'] == 'WCA':
         pts.append(s * 2 ** (1.0 / 6.0))
+    if spec['t'] == 'SW':
+        pts.append(s + spec['width'])
     return pts
 
 
@@ -230,6 +238,10 @@ def w_ref(spec, k):
         return np.zeros_like(k)
     if t == 'ARR':
         return np.array(spec['w'], dtype=float)
+    if t == 'FILE':
+        # tabulated data shipped with the repository (repo/data); read independently of pyPRISM.omega.FromFile
+        rows = [[float(x) for x in ln.replace(',', ' ').split()] for ln in open(os.path.join(DATA_DIR, spec['file'])) if ln.strip() and not ln.lstrip().startswith('#')]
+        return np.array([row[-1] for row in rows], dtype=float)
     N = int(spec['N'])
     if t == 'G':
         return chain_sum(np.exp(-k * k * spec['s'] ** 2 / 6.0), N)
@@ -346,3 +358,81 @@ def cost_ref(sp, x, pairs_of, ms='shipped'):
         return np.full(L * n * n, np.nan), np.inf
     gout = to_real(H - Ck, dr)
     return (r[:, None, None] * (gout - gin)).reshape(-1), cond
+
+
+# --------------------------------------------------------------------------- discrete Koyama chain (independent moments)
+
+@functools.lru_cache(maxsize=None)
+def _leggauss200():
+    return np.polynomial.legendre.leggauss(200)
+
+
+def _bond_angle_moments(eps, T):
+    """<t>, <t^2> of t = 1 + cos(theta) in [0, T] with weight exp(-eps t) (bending energy eps per unit cos), Gauss-Legendre"""
+    hi = T if eps * T < 60.0 else 60.0 / eps          # beyond 60/eps the weight is < 1e-26 of its maximum
+    x, w = _leggauss200()
+    t = 0.5 * hi * (x + 1.0)
+    wt = 0.5 * hi * w * np.exp(-eps * t)
+    m0 = wt.sum()
+    return float((wt * t).sum() / m0), float((wt * t * t).sum() / m0)
+
+
+def dk_moments(sigma, l, lp, nmax):
+    """exact second and fourth moments <r_n^2>, <r_n^4>, n = 1..nmax, of the chain the DiscreteKoyama docstring describes (Honnell,
+    Curro, Schweizer 1990): fixed bond length l, free rotation about the bonds, bond angle with Boltzmann weight exp(-eps*cos) on
+    cos(theta) in [-1, cos0], cos0 = 1 - sigma^2/(2 l^2) (no overlap of second neighbours), eps such that <cos(theta)> = l/lp - 1.
+    Computed by a step-by-step recursion on <R^2>, <R.u>, <(R.u)^2>, <R^2 R.u>, <R^4> (no closed form, no cancellation)."""
+    T = 2.0 - sigma * sigma / (2.0 * l * l)             # range of t = 1 + cos(theta)
+    target = l / lp                                      # <t> = 1 + <cos> = l/lp
+    lo, hi = 1e-12, 1e-12
+    f = lambda e: _bond_angle_moments(e, T)[0] - target  # decreasing in e
+    if f(lo) < 0:
+        return None                                      # lp below the freely-jointed minimum
+    hi = 1.0
+    while f(hi) > 0:
+        hi *= 2.0
+        if hi > 1e7:
+            return None
+    for _ in range(200):
+        mid = 0.5 * (lo + hi)
+        if f(mid) > 0:
+            lo = mid
+        else:
+            hi = mid
+    eps = 0.5 * (lo + hi)
+    t1, t2 = _bond_angle_moments(eps, T)
+    q = 1.0 - t1                                         # bond-vector correlation <u_i.u_(i+1)> = -<cos(theta)>
+    c2 = t2 - 2.0 * t1 + 1.0                             # <cos^2>
+    p = (3.0 * c2 - 1.0) / 2.0
+    Ea, Eb, Ebb, Eab, Eaa = l * l, l, l * l, l ** 3, l ** 4
+    r2, r4 = [Ea], [Eaa]
+    for n in range(2, nmax + 1):
+        s2 = (1.0 - p) / 3.0 * Ea + p * Ebb              # <(R.u')^2>
+        Eaa_n = Eaa + 2 * l * l * Ea + l ** 4 + 4 * l * q * (Eab + l * l * Eb) + 4 * l * l * s2
+        Eab_n = q * (Eab + l * l * Eb) + l * (Ea + l * l) + 2 * l * s2 + 2 * l * l * q * Eb
+        Ebb_n = s2 + 2 * l * q * Eb + l * l
+        Ea_n = Ea + 2 * l * q * Eb + l * l
+        Eb_n = q * Eb + l
+        Ea, Eb, Ebb, Eab, Eaa = Ea_n, Eb_n, Ebb_n, Eab_n, Eaa_n
+        r2.append(Ea)
+        r4.append(Eaa)
+    return np.array(r2), np.array(r4), eps, q, p
+
+
+def dk_ref(sigma, l, N, lp, k):
+    """omega(k) of the discrete Koyama model from the defining pair sum with the documented kernel sin(Bk)/(Bk) exp(-A^2 k^2)"""
+    mom = dk_moments(sigma, l, lp, int(N) - 1)
+    if mom is None:
+        return None
+    r2, r4 = mom[0], mom[1]
+    k = np.asarray(k, dtype=float)
+    out = np.ones_like(k)
+    for n in range(1, int(N)):
+        C2 = 0.5 * (5.0 - 3.0 * r4[n - 1] / (r2[n - 1] ** 2))
+        C = math.sqrt(min(max(C2, 0.0), 1.0))
+        B = math.sqrt(C * r2[n - 1])
+        Asq = r2[n - 1] * (1.0 - C) / 6.0
+        with np.errstate(under='ignore'):
+            wn = (np.sin(B * k) / (B * k) if B > 0 else np.ones_like(k)) * np.exp(-Asq * k * k)
+        out += (2.0 / N) * (N - n) * wn
+    return out
